@@ -1,5 +1,7 @@
 """C04 -- messages reach exactly the transaction RFC 3261 sec. 17 matching prescribes."""
 
+import re
+
 ID = "C04"
 COQ_PROOF_TARGETS = ["Props/C04.vo"]
 COQ_MODEL_TARGETS = ["Extract/ExC04.vo"]
@@ -180,6 +182,17 @@ def gen_cases(rng, tier):
         evs = gen_history(rng, rng.randrange(3, 15))
         if evs:
             cases.append(["h%d" % i, "c04", ",".join(evs)])
+    # the end of a transaction by its timer: retransmissions inside the 64*T1 window are absorbed, the same identifiers
+    # afterwards are a new transaction, however many retransmissions were absorbed in between
+    import importlib
+    P06 = importlib.import_module("props.c06")
+    k = 0
+    for t0 in (0, 137):
+        for code in (200, 404):
+            for evs in ([(t0 + 32001, "R")], [(t0 + 100, "R"), (t0 + 32001, "R")], [(t0 + 20000, "R"), (t0 + 40000, "R")], [(t0 + 31999, "R"), (t0 + 32002, "R")],
+                        [(t0 + 10000, "R"), (t0 + 20000, "R"), (t0 + 30000, "R"), (t0 + 40000, "R")], [(t0 + 31000, "R"), (t0 + 62000, "R")]):
+                c = P06._case("tj%d" % k, "ni", 0, code, t0, evs)
+                cases.append([c[0], "c04", "TIMED"] + c[2:]); k += 1
     if tier == "thorough":
         # exhaustive pairs: one live server entry (request A), then message B, over the alphabet
         k = 0
@@ -197,7 +210,44 @@ def gen_cases(rng, tier):
     return cases
 
 
+def model_case(case, impl):
+    if case[2] == "TIMED":
+        return [case[0], "c04", ""]
+    return case
+
+
+def accepts(case, impl, model):
+    if case[2] == "TIMED":
+        return True
+    return impl == model
+
+
+def _timed_oracle(case, impl):
+    """'once a transaction has ended the same identifiers start a new one': a server transaction answered at t0 over an
+    unreliable transport ends 64*T1 later (RFC 3261 17.2.2, timer J / H); until then a request with its identifiers is
+    absorbed, afterwards it is shown to the layers as a new request"""
+    if "PANIC" in impl:
+        return ["panic: " + impl[:300]]
+    kind, rel, t0 = case[3], case[4] == "1", int(case[6])
+    inj = [(int(x.split(":")[0]), x.split(":")[1]) for x in case[7].split(",") if x]
+    layer = [int(m.group(1)) for m in re.finditer(r"\bL@(\d+)", impl)]
+    if kind != "ni" or rel:
+        return []
+    late = [t for (t, k) in inj if k == "R" and t > t0 + 32000]
+    early = [t for (t, k) in inj if k == "R" and t0 < t < t0 + 32000]
+    got = [t for t in layer if t > 0]
+    for t in early:
+        if t in got:
+            return ["a retransmission at %d ms (transaction answered at %d) was shown to the layers as a new request" % (t, t0)]
+    for t in late:
+        if t not in got:
+            return ["the request arriving at %d ms, after the transaction answered at %d ms had ended (64*T1), was absorbed instead of starting a new transaction (retransmissions at %r)" % (t, t0, early)]
+    return []
+
+
 def oracle(case, impl):
+    if case[2] == "TIMED":
+        return _timed_oracle(case, impl)
     if "PANIC" in impl:
         return ["panic: " + impl[:300]]
     ref = Ref()
@@ -216,6 +266,8 @@ def oracle(case, impl):
 
 
 def nontrivial(case, impl):
+    if case[2] == "TIMED":
+        return "|".join(case[3:8])
     obs = impl.split(";")
     evs = [e for e in case[2].split(",") if e]
     absorbed = any(o.startswith("-/") and e.startswith("M:q") for e, o in zip(evs, obs))
@@ -227,6 +279,9 @@ def distribution(cases, impl):
     import collections
     h = collections.Counter()
     for c in cases:
+        if c[2] == "TIMED":
+            h["timed"] += 1
+            continue
         o = impl.get(c[0], "")
         for x in o.split(";"):
             h[x[:1]] += 1
@@ -260,6 +315,8 @@ def _valid(evs):
 
 
 def shrink_candidates(case):
+    if case[2] == "TIMED":
+        return []
     evs = case[2].split(",")
     out = []
     for i in range(len(evs)):
